@@ -497,8 +497,17 @@ def judge(c, res):
             # incoming lanes (listed through the junction's <laneLink>) whose own lane record declares no successor
             d["incoming_without_successor"] = [lu for lu in e.get("incomingLanes", []) if E[lu].get("_successor") is None]
             d["only_incoming_lanes_without_declared_successor"] = (not off and bool(d["incoming_without_successor"]) and all(
-                E[lu].get("_successor") is not None and any(P["mans"][mi - 1]["connectingLane"] == E[lu]["_successor"] for mi in e["maneuvers"])
+                E[lu].get("_successor") is not None and (E.get(E[lu]["_successor"], {}).get("_successor") is None or any(
+                    P["mans"][mi - 1]["connectingLane"] == E[lu]["_successor"] for mi in e["maneuvers"]))
                 for lu in e.get("incomingLanes", []) if lu not in d["incoming_without_successor"]))
+            # third clause of the rule: the lane's successor leads on, but no maneuver of the intersection passes through it
+            # (a successor that is itself a dead end carries no maneuver and is not demanded to)
+            conn_of = {P["mans"][mi - 1]["connectingLane"] for mi in e["maneuvers"]}
+            d["incoming_successor_without_maneuver"] = [
+                dict(lane=lu, successor=E[lu]["_successor"], successor_leads_to=E.get(E[lu]["_successor"], {}).get("_successor"))
+                for lu in e.get("incomingLanes", [])
+                if E[lu].get("_successor") is not None and E[lu]["_successor"] not in conn_of
+                and E.get(E[lu]["_successor"], {}).get("_successor") is not None]
             d["only_dummy_mergers_into_dead_end_connecting_lanes"] = bool(off) and all(
                 o["maneuver"]["connectingLane"] is None and o["end_on_connecting_road"] and o["end_is_successor"]
                 and not o["end_has_successor"] for o in off)
@@ -830,7 +839,7 @@ def main():
     c.cov["maps"] = len(maps)
     c.cov["maps_skipped_empty"] = [os.path.relpath(p, common.REPO) for p in skipped]
     jobs = []
-    npts = 160 if quick else 800
+    npts = 160 if quick else 600     # thorough was 800 (32 min at load 35: trimmed to stay under 35 min on a loaded machine; per-job point seeds, so the case stream is unchanged)
     for p in maps:
         size = os.path.getsize(p)
         base = re.sub(r"\W", "_", os.path.relpath(p, os.path.join(common.REPO, "assets/maps"))[:-5])
